@@ -75,7 +75,9 @@ def arithmetic(thorough):
         out.append(scen(reqs))
     # counters: stored value x command x delta
     stored = [None, b"0", b"-1", b"9223372036854775807", b"9223372036854775806", b"-9223372036854775808", b"-9223372036854775807",
-              b"1.5", b"abc", b"", b"12"]
+              b"1.5", b"abc", b"", b"12",
+              # not the canonical decimal form: strings to Redis, although a lenient parser reads a number
+              b"05", b"+5", b"-0", b"00", b" 5", b"5 ", b"0x10", b"1e3", b"-05", b"9223372036854775808"]
     deltas = [I(1), I(-1), I(5), BIG("max64"), BIG("min64")]
     for st in stored:
         for cmd in ("INCR", "DECR", "INCRBY", "DECRBY"):
